@@ -324,6 +324,8 @@ func (obj JsonWebEncryption) Decrypt(decryptionKey interface{}) ([]byte, error) 
 	authData := obj.computeAuthData()
 
 	var plaintext []byte
+	// The plaintext is nil for an empty message, so it can not tell whether decrypted.
+	success := false
 	for _, recipient := range obj.recipients {
 		recipientHeaders := obj.mergedHeaders(&recipient)
 
@@ -332,12 +334,13 @@ func (obj JsonWebEncryption) Decrypt(decryptionKey interface{}) ([]byte, error) 
 			// Found a valid CEK -- let's try to decrypt.
 			plaintext, err = cipher.decrypt(cek, authData, parts)
 			if err == nil {
+				success = true
 				break
 			}
 		}
 	}
 
-	if plaintext == nil {
+	if !success {
 		return nil, ErrCryptoFailure
 	}
 
